@@ -100,7 +100,12 @@ def gen_case(rng, tier):
                            [rng.choice(vals + [None]), None, rng.choice(vals)])
         progs.append(ops)
     pol = rng.choice(['random', 'random', 'sticky', 'pct'])
-    return {'B': B, 'progs': progs, 'policy': pol, 'pseed': rng.randrange(1 << 30)}
+    ser = None
+    if rng.random() < 0.25:
+        w = rng.randrange(len(progs))
+        if len(progs[w]) > 1:
+            ser = {str(w): rng.randrange(1, len(progs[w]))}
+    return {'B': B, 'progs': progs, 'policy': pol, 'pseed': rng.randrange(1 << 30), 'ser': ser}
 
 
 def chooser_for(case):
@@ -141,7 +146,14 @@ def run_impl(case):
 
         def body(w):
             c = clones[w]
-            for t, s, v in case['progs'][w]:
+            for k, (t, s, v) in enumerate(case['progs'][w]):
+                if (case.get('ser') or {}).get(str(w)) == k:
+                    # the worker's store object starts being serialised (what pickle / deepcopy
+                    # do first: ask the object for its state): must change nothing
+                    try:
+                        c.__reduce_ex__(4)
+                    except Exception:  # pylint: disable=broad-except
+                        pass
                 ret = c.add(t, s, v)
                 handed[w].append([[t, s, v], list(ret)])
                 sched.log('ret', w, ret[0], ret[1], ret[2])
